@@ -398,6 +398,9 @@ func (r *run) step(a act) bool {
 	}
 	// which way did tex's grow() go?  (coverage statistics only, never judged)
 	c0, p0, l0 := r.tex.b.Cap(), base(r.tex.b), r.tex.b.Len()
+	// which actions are issued next must never depend on the implementation under test: the
+	// applicability bookkeeping (dirty / lastRead) follows the reference bytes.Buffer
+	ls0 := r.std.b.Len()
 	rt := r.tex.do(a)
 	if appending[a.Op] {
 		c1, p1 := r.tex.b.Cap(), base(r.tex.b)
@@ -431,13 +434,13 @@ func (r *run) step(a act) bool {
 	switch {
 	case a.Op == "reset" || (a.Op == "trunc" && a.N == 0):
 		r.dirty = false
-	case consuming[a.Op] && r.tex.b.Len() < l0:
+	case consuming[a.Op] && r.std.b.Len() < ls0:
 		r.dirty = true
 	}
 	switch a.Op {
 	case "len", "bytes", "string", "nilstr":
 	default:
-		r.lastRead = consuming[a.Op] && a.Op != "writeto" && r.tex.b.Len() < l0
+		r.lastRead = consuming[a.Op] && a.Op != "writeto" && r.std.b.Len() < ls0
 		r.lastGrow = a.Op == "grow"
 	}
 	return true
